@@ -55,13 +55,16 @@ var deadAddress, _ = hex.DecodeString(strings.Repeat("dead", 10))
 type BCfg struct {
 	Name   string
 	RR, RN uint64 // genesis reserves: R's pool of R-token (pool id 2+LiquidityPoolAddend on R), N's pool of N-token (1+LiquidityPoolAddend on N)
+	// NoLP: the pools hold seeded liquidity but nobody ever provided liquidity: no point holders, total points 0
+	NoLP bool
 }
 
 var BConfigs = []BCfg{
-	{"1e3x1e3", 1000, 1000},
-	{"1x1", 1, 1},
-	{"1x2p62", 1, 1 << 62},
-	{"2p63x2p63", 1 << 63, 1 << 63},
+	{"1e3x1e3", 1000, 1000, false},
+	{"1x1", 1, 1, false},
+	{"1x2p62", 1, 1 << 62, false},
+	{"2p63x2p63", 1 << 63, 1 << 63, false},
+	{"1e3x1e3-nolp", 1000, 1000, true},
 }
 
 func bCfgByName(n string) BCfg {
@@ -312,6 +315,9 @@ func bGenesis(cfg BCfg, ch string) *fsm.GenesisState {
 		p.Points = []*lib.PoolPoints{{Address: deadAddress, Points: L}}
 	}
 	p.TotalPoolPoints = L
+	if cfg.NoLP {
+		p.Points, p.TotalPoolPoints = nil, 0
+	}
 	g.Pools = append(g.Pools, p)
 	return g
 }
